@@ -234,6 +234,12 @@ var solvers = []solverSpec{
 	{"z3-5.1.0/seed7", func(f string, t int) []string {
 		return []string{"z3-new", fmt.Sprintf("-T:%d", t), "smt.random_seed=7", f}
 	}, func(s string) string { return s }},
+	{"z3-5.1.0/seed3", func(f string, t int) []string {
+		return []string{"z3-new", fmt.Sprintf("-T:%d", t), "smt.random_seed=3", f}
+	}, func(s string) string { return s }},
+	{"z3-5.1.0/eager100", func(f string, t int) []string {
+		return []string{"z3-new", fmt.Sprintf("-T:%d", t), "smt.qi.eager_threshold=100", f}
+	}, func(s string) string { return s }},
 }
 
 var scratchDir string
@@ -265,12 +271,24 @@ var fileCounter struct {
 // (check-sat) and may be followed by (get-model)). The first definitive answer
 // (sat / unsat) wins. which selects solvers by index (nil = all).
 func Solve(script string, timeoutSec int, which []int) SolverResult {
+	if which == nil && timeoutSec > 4 {
+		// stage 1: two quick configurations; most obligations end here
+		r := solveWith(script, 3, []int{0, 3})
+		if r.Status == "unsat" || r.Status == "sat" {
+			return r
+		}
+		return solveWith(script, timeoutSec, nil)
+	}
+	return solveWith(script, timeoutSec, which)
+}
+
+func solveWith(script string, timeoutSec int, which []int) SolverResult {
 	fileCounter.Lock()
 	fileCounter.n++
 	id := fileCounter.n
 	fileCounter.Unlock()
 	if which == nil {
-		which = []int{0, 1, 2, 3}
+		which = []int{0, 1, 2, 3, 4, 5}
 	}
 	ctx, cancel := context.WithCancel(context.Background())
 	defer cancel()
